@@ -6,7 +6,7 @@ from common import *
 import procgen as pg
 
 PROP_MODULES = ["HvsrVerif.Props.C09"]
-BRIDGE_MODULES = []
+BRIDGE_MODULES = ["HvsrVerif.Bridge.PyFft"]
 
 
 def snapshot(srecords):
